@@ -4,7 +4,7 @@
    a sample of every run (the in-kernel sample), so the extraction itself is checked. *)
 From Coq Require Import List Ascii String Bool Arith NArith ZArith.
 Require Import Show.
-Require V1 V5 V6 V3 V11 A1 D3 M6 M6b GS R2 AR AR2 AR3 CL TS3 CX SchemaDefs Schema_gen H12 H13.
+Require V1 V5 V6 V3 V11 A1 D3 M6 M6b GS R2 AR AR2 AR3 CL TS3 CX SchemaDefs Schema_gen H12 H13 S11.
 Import ListNotations.
 Open Scope string_scope.
 Open Scope list_scope.
@@ -393,6 +393,23 @@ Definition run_hash (op : string) (a : list str) : option str :=
           end)
   else None.
 
+(* ---- clearsigned input: C11 (clearsign.Decode and the signature check come in as oracle answers) ---- *)
+Definition run_clearsign (op : string) (a : list str) : option str :=
+  let g n := nth_arg n a in
+  if op =? "csmodel" then
+    (* keyring given (1/0), input, decoded (1/0), body, verified (1/0), signer id *)
+    let cs_decode := fun _ : str => if arg_bool (g 2) then Some (g 3, tt, ([] : str)) else None in
+    let verify := fun (_ : unit) (_ : str) (_ : unit) => if arg_bool (g 4) then Some (g 5) else None in
+    Some (match S11.new_reader unit str unit cs_decode verify (if arg_bool (g 0) then Some tt else None) (g 1) with
+          | S11.RErr _ => lit "err"
+          | S11.ROk _ r =>
+              match R2.read_all (S11.r_text _ r) with
+              | None => lit "ok-then-read-error"
+              | Some ps => lit "ok signer=" ++ (match S11.r_signer _ r with Some e => hx e | None => lit "-" end) ++ sp1 ++ show_paras ps
+              end
+          end)
+  else None.
+
 Definition run (op : string) (hexargs : list str) : str :=
   let a := map unhex hexargs in
   match run_version op a with Some r => r | None =>
@@ -403,4 +420,5 @@ Definition run (op : string) (hexargs : list str) : str :=
   match run_order op a with Some r => r | None =>
   match run_codec op a with Some r => r | None =>
   match run_hash op a with Some r => r | None =>
-  lit "unknown-op" end end end end end end end end.
+  match run_clearsign op a with Some r => r | None =>
+  lit "unknown-op" end end end end end end end end end.
